@@ -5,12 +5,15 @@ SELF = 4242
 
 
 def main_case(args=(), real=None, mounted=("/",), fan=1, minfo=1, mount_ok=1, markfail=-1, load=1,
-              stat=("ok", 1000, 100), cred=(0, 0, 3, "ok", "ok", "ok"), slots=()):
+              stat=("ok", 1000, 100), cred=(0, 0, 3, "ok", "ok", "ok"), slots=(), mounts_raw=None):
     real = real if real is not None else {".": "/cwd", "/": "/"}
     lines = []
     lines.append("m_args " + " ".join(hexs(a) for a in args))
     lines.append("m_real " + " ".join("%s=%s" % (hexs(a), hexs(b)) for a, b in real.items()))
     lines.append("m_mounted " + " ".join(hexs(m) for m in mounted))
+    if mounts_raw is not None:
+        # the text of /proc/self/mounts verbatim (instead of the table rendered from `mounted` the kernel's way)
+        lines.append(("m_mounts_raw " + hexs(mounts_raw)).rstrip())
     lines.append("m_flags %d %d %d %d %d" % (fan, minfo, mount_ok, markfail, load))
     lines.append("m_stat %s %d %d" % stat)
     lines.append("m_cred %d %d %d %s %s %s" % cred)
